@@ -54,7 +54,7 @@ func (c *checkSchema) checkType(name string, typ schema.Type, ss map[string]sche
 
 		// Return an error with the full set of bytes of the root schema.
 		if documentError, ok := r.(errors.DocumentError); ok {
-			if documentError.Filename() == "" {
+			if !documentError.HasFile() {
 				// Keep the file of the lexeme: a node inherited through allOf
 				// belongs to the text of the type it was copied from.
 				documentError.SetFile(typ.RootFile())
